@@ -1501,12 +1501,14 @@ func specMetersInv(up4 *UP4, appSize, sessSize int64) bool {
 // ---------------------------------------------------------------------------
 
 // Ghost log "p4table": one entry per ApplyTableEntries call (method and the entries slice).
+// The error it returns comes out of convertError (contract below, verified): a *P4RuntimeError is
+// never nil and never empty; the gRPC client itself is assumed not to return one.
 //@ func (c *P4rtClient) ApplyTableEntries(methodType p4.Update_Type, entries ...*p4.TableEntry) (err error)
 //@   trusted
 //@   requires C16.tablewrite.shape: forall k int :: 0 <= k && k < len(entries) ==> specEntryStruct(entries[k]) && oracleP4HasTable(entries[k].TableId) && oracleP4Allowed(entries[k].TableId, specEntryAction(entries[k]).ActionId) && (oracleP4NeedsPriority(entries[k].TableId) == (entries[k].Priority != 0))
 //@   appends p4table
 //@   ensures gfield("p4table.method", gentry("p4table", glen("p4table")-1)) == uint64(methodType) && gfield("p4table.ptr", gentry("p4table", glen("p4table")-1)) == uint64(sliceRef(entries)) && gfield("p4table.off", gentry("p4table", glen("p4table")-1)) == uint64(lo(entries)) && gfield("p4table.n", gentry("p4table", glen("p4table")-1)) == uint64(len(entries))
-//@   ensures typeIs[*P4RuntimeError](err) ==> dynRef(err) != 0
+//@   ensures C15.assume.batcherr: typeIs[*P4RuntimeError](err) ==> dynRef(err) != 0 && len(ptrAt[P4RuntimeError](dynRef(err)).errors) > 0
 //@   ensures gfield("p4table.ok", gentry("p4table", glen("p4table")-1)) == specB2U(err == nil) && gfield("p4table.p4err", gentry("p4table", glen("p4table")-1)) == specB2U(typeIs[*P4RuntimeError](err)) && gfield("p4table.err", gentry("p4table", glen("p4table")-1)) == uint64(dynRef(err))
 
 // specTableEntry: the k-th TableEntry of the write logged as entry e of "p4table".
@@ -1785,3 +1787,10 @@ func specModifyEnv(up4 *UP4) bool {
 //@   loop 1 invariant C04.modify.l1.method: forall k int :: old[int](glen("p4table")) <= k && k < glen("p4table") ==> gfield("p4table.method", gentry("p4table", k)) == uint64(methodType)
 //@   loop 1 invariant C04.modify.l1.term: rangeidx >= 0 ==> specTermOfPDR(up4, specLastTerm(gentry("p4table", glen("p4table")-1)), pdrs[rangeidx], allFARs, qers)
 //@   loop 2 invariant C15.modify.l2.tolerated: forall i int :: lo(p4Error.errors) <= i && i < lo(p4Error.errors)+rangeidx+1 ==> at(p4Error.errors, i).GetCanonicalCode() == 6 || at(p4Error.errors, i).GetCanonicalCode() == 0
+
+// convertError (C15): a P4RuntimeError produced here always carries at least one per-entry status -
+// a bare UNKNOWN status is passed through as an ordinary error and therefore rejects the request.
+//@ func convertError(err error) (r error)
+//@   ensures C15.converr.nil: (r == nil) <==> (err == nil)
+//@   ensures C15.converr.batch: typeIs[*P4RuntimeError](r) && dynRef(r) != dynRef(err) ==> dynRef(r) != 0 && !allocated(r) && len(r.(*P4RuntimeError).errors) > 0
+//@   loop 1 invariant C15.converr.l1: p4RtError != nil && !allocated(p4RtError) && len(p4RtError.errors) == rangeidx+1
